@@ -123,7 +123,7 @@ def run(ctx, rep):
             why = "adds the whole remainder"
             if good and not bounded and isinstance(s.value, ast.Name):
                 d = [x for x in walk_nodes(f.node.body, ast.Assign) if utext(x.targets[0]) == s.value.id]
-                if len(d) == 1 and _is_min_of_remaining(d[0].value):
+                if len(d) == 1 and _is_min_of_remaining(d[0].value, f):
                     bounded = True
                     why = "adds a local clamped with min(., self.size_remaining)"
                 elif len(d) == 1 and utext(d[0].value) == "self.size_remaining" and _adjacent(f.node, d[0], s):
@@ -277,8 +277,12 @@ def run(ctx, rep):
               "R4", key(um, None, "a fill is appended and the totals recomputed"), um, None, str(body))
     # cancel(): reduction clamped
     cn = prog.own_method("SimulatedOrder", "cancel")
-    d = [x for x in walk_nodes(cn.node.body, ast.Assign) if utext(x.targets[0]) == "_size_cancelled"]
-    rep.check(len(d) == 1 and _is_min_of_remaining(d[0].value), "R4",
+    # what is added to the cancelled bucket: a local clamped with min(., remainder)
+    adds = [x for x in walk_nodes(cn.node.body, ast.AugAssign) if utext(x.target) == "self.size_cancelled"]
+    d = []
+    if len(adds) == 1 and isinstance(adds[0].value, ast.Name):
+        d = [x for x in walk_nodes(cn.node.body, ast.Assign) if len(x.targets) == 1 and utext(x.targets[0]) == adds[0].value.id]
+    rep.check(len(d) == 1 and _is_min_of_remaining(d[0].value, cn), "R4",
               key(cn, None, "a cancel never removes more than the remainder"), cn)
 
     # ------------------------------------------------------------------ R5 completion on zero remainder
@@ -306,11 +310,27 @@ def run(ctx, rep):
         rep.check(good, "R5", key(f, None, "complete exactly when the remainder is zero"), f, conds[0].exprs[0] if conds else None)
 
 
-def _is_min_of_remaining(v):
+def _is_remainder(a, func=None):
+    """`self.size_remaining`, or a local whose only binding reads it (the buckets are not written in this function
+    before the local's last use other than by the statement that consumes it - checked by the caller's rule R2)"""
+    if utext(a) == "self.size_remaining":
+        return True
+    if func is not None and isinstance(a, ast.Name) and a.id not in func.params:
+        d = [x for x in walk_nodes(func.node.body, ast.Assign) if len(x.targets) == 1 and utext(x.targets[0]) == a.id]
+        if len(d) == 1 and utext(d[0].value) == "self.size_remaining":
+            # no bucket is written between the read and the end of the function except after all uses of the local
+            writes = [x for x in walk_nodes(func.node.body, (ast.AugAssign, ast.Assign))
+                      if any(isinstance(t, ast.Attribute) and t.attr in BUCKETS for t, k in store_targets(x))]
+            uses = [n for n in ast.walk(func.node) if isinstance(n, ast.Name) and n.id == a.id and isinstance(n.ctx, ast.Load)]
+            last_use = max((u.lineno, u.col_offset) for u in uses) if uses else (0, 0)
+            return all((w.lineno, w.col_offset) >= (last_use[0], 0) or w.lineno < d[0].lineno for w in writes)
+    return False
+
+
+def _is_min_of_remaining(v, func=None):
     if isinstance(v, ast.Call) and call_name(v) == "round" and v.args:
         v = v.args[0]
-    return isinstance(v, ast.Call) and call_name(v) == "min" and any(
-        utext(a) == "self.size_remaining" for a in v.args)
+    return isinstance(v, ast.Call) and call_name(v) == "min" and any(_is_remainder(a, func) for a in v.args)
 
 
 def MUTANTS(ctx):
